@@ -65,6 +65,17 @@ RrefOfSpace(V, m, n) ==
 RrefBF(A, m, n) == RrefOfSpace(RowSpace(A, m, n), m, n)
 IndependentBF(v, B, m, n) == v \notin ColSpace(B, m, n)          \* B is m x n, its columns are the family
 
+(* ------------- the systems the consumers of the library pose ----------- *)
+\* (SYM) qubit tapering: a Pauli word on q qubits is the bit vector (x|z) of length 2q; two words commute iff their
+\* symplectic product vanishes.  The Z2 symmetries of a Hamiltonian whose terms are the rows of A (m x 2q) are the words
+\* commuting with every term.  (Zero rows are identity terms.)
+Symp(u, v, q) == (Dot(u, [i \in 1..q |-> v[q + i]], q) + Dot([i \in 1..q |-> u[q + i]], v, q)) % 2
+SwapHalves(v, q) == [i \in 1..(2 * q) |-> IF i <= q THEN v[q + i] ELSE v[i - q]]
+SymGroup(A, m, q) == {v \in Vecs(2 * q) : \A r \in 1..m : Symp(A[r], v, q) = 0}
+\* (ROWSEL) CNOT routing (RowCol, row elimination): the set of rows of a regular P (k x k) whose sum is the unit vector
+\* e_i, i.e. the solutions c of P^T c = e_i, by brute force over all 2^k selections
+RowSelections(P, i, k) == {c \in Vecs(k) : Comb(P, c, k, k) = Unit(i, k)}
+
 (* ------------------------ (ELIM) Gauss-Jordan, stepwise ---------------- *)
 SwapRows(M, a, b) == [M EXCEPT ![a] = M[b], ![b] = M[a]]
 ElimInit(A, m) == [mat |-> A, T |-> IdentM(m), r |-> 1, c |-> 1, piv |-> <<>>]
